@@ -86,9 +86,13 @@ package run
 //@ extern func (s base.BufferReceiverSink) Tick()
 //@   requires[sink-is-used-under-the-lock] lockheld
 //@   modifies nothing
+// lastbatch: ghost - the batch last handed to a downstream sink (C05: what a connection passes on, and in which order)
+//@ ghost var lastbatch []*base.LogRecord
 //@ extern func (s base.BufferReceiverSink) Accept(buffer []*base.LogRecord)
+//@   flag counted
 //@   requires[sink-is-used-under-the-lock] lockheld
-//@   modifies nothing
+//@   modifies lastbatch
+//@   ghostset lastbatch := buffer
 //@ fieldspec ReloadableOrchestrator.downstreamMutex.Lock(m *xsync.RBMutex)
 //@   modifies run.ReloadableOrchestrator.downstreamSinks, run.ReloadableOrchestrator.downstreamAddrs, lockheld
 //@   ghostset lockheld := true
@@ -103,6 +107,9 @@ package run
 //@   requires ref(reloadFailureCounter) != ref(reloadSuccessCounter)
 //@   define   lockorc == orc
 //@   modifies everything
+// the new pipelines take over the queue directories by scanning them once when they start: they may be started only after the
+// old orchestrator has shut down (its pipelines have saved what they held), and the lock is held from before that shutdown
+//@   before run.CompleteReloadingFunc: assert[the-new-orchestrator-starts-only-after-the-old-one-has-shut-down] ncalls("base.Orchestrator.Shutdown") == old(ncalls("base.Orchestrator.Shutdown")) + 1 && lockheld
 //@   ensures[failed-reload-keeps-the-orchestrator] lastreloaderr != nil ==> orc.downstream == old(orc.downstream)
 //@   ensures[failed-reload-keeps-the-sinks] lastreloaderr != nil ==> orc.downstreamSinks === old(orc.downstreamSinks)
 //@   ensures[after-a-reload-every-registered-sink-belongs-to-the-new-orchestrator] lastreloaderr == nil ==> lockinv(orc)
@@ -153,7 +160,7 @@ package run
 //@   property C17
 //@   requires rsinkok(sink)
 //@   define   !lockheld
-//@   modifies lockheld
+//@   modifies lockheld, lastbatch
 //@ func (sink *ReloadableSink) Tick()
 //@   property C17
 //@   requires rsinkok(sink)
